@@ -53,9 +53,9 @@ func main() {
 	units := map[string]*unitSummary{}
 	unitHashes := map[string][]uint64{}
 	var order []string
-	var samples []interface{}
+	samples := []interface{}{}
 	assume := map[string]bool{}
-	var assumptions []string
+	assumptions := []string{}
 	var total int64
 	for _, f := range files {
 		b, err := os.ReadFile(f)
